@@ -55,6 +55,7 @@ fn exec(st: &mut State, toks: &[&str]) -> String {
         ["!amf.refdec", v, seed] => fam_amf::refdec(v, seed.parse().unwrap_or(0)),
         ["!amf.trunc", v] => fam_amf::trunc(v),
         ["!amf.marker", m, tail] => fam_amf::marker(m.parse().unwrap_or(0), tail),
+        ["!amf.markerat", pre, m, tail] => fam_amf::marker_at(pre, m.parse().unwrap_or(0), tail),
         ["!amf.adv", kind, n, kb] => fam_amf::adversarial(kind, n.parse().unwrap_or(0), kb.parse().unwrap_or(512)),
         ["note", ..] => "note".into(),
         ["!interop", kind, cs_c, cs_s, win_c, win_s, seed, app, key, items] => {
